@@ -58,6 +58,7 @@ class Path:
         self.pending = []  # alternative prefixes discovered on this run
         self.solver = z3.Solver()
         self.solver.set("timeout", timeout_ms)
+        self.solver_timeout_ms = timeout_ms
         if seed:
             self.solver.set("random_seed", seed & 0x7FFFFFFF)
         self.pc = []
@@ -69,6 +70,7 @@ class Path:
         self.notes = []  # free-form events (model divergences etc.)
         self.inputs = {}  # name -> z3 var, registered by the harness for counterexample reporting
         self.assumed = 0
+        self.bounds = {}  # z3 const name -> (lo, hi): ranges given when the variable was created
 
     # -- variables -------------------------------------------------------------------------
     def fresh_name(self, hint):
@@ -80,6 +82,7 @@ class Path:
             self._add(v >= lo)
         if hi is not None:
             self._add(v <= hi)
+        self.bounds[v.decl().name()] = (lo, hi)
         return SInt(v)
 
     def fresh_bool(self, hint):
@@ -93,6 +96,7 @@ class Path:
             self._add(v >= lo)
         if hi is not None:
             self._add(v <= hi)
+        self.bounds[name] = (lo, hi)
         return SInt(v)
 
     def input_bool(self, name):
@@ -139,6 +143,11 @@ class Path:
             return True
         if z3.is_false(c):
             return False
+        # implied by the declared ranges of the variables alone? (deterministic, no solver call,
+        # consumes no decision index)
+        t = truth_by_intervals(c, self.bounds)
+        if t is not None:
+            return t
         i = self.pos
         self.pos += 1
         if i >= self.max_decisions:
@@ -205,6 +214,27 @@ class Path:
             return "unsat", None
         if r == z3.sat:
             return "sat", self.solver.model()
+        # a fresh, non-incremental z3 instance often decides what the incremental one leaves open
+        s2 = z3.Solver()
+        s2.set("timeout", int(self.solver_timeout_ms * 2))
+        s2.add(self.solver.assertions())
+        s2.add(z3.Not(c))
+        import time as _t
+
+        t0 = _t.time()
+        r1 = s2.check()
+        self.solver_time += _t.time() - t0
+        self.queries += 1
+        if r1 == z3.unsat:
+            self.notes.append("fresh z3 instance decided a query the incremental one left open")
+            return "unsat", None
+        if r1 == z3.sat:
+            return "sat", s2.model()
+        # second back end for queries z3 leaves open
+        r2 = second_opinion(self.solver, z3.Not(c))
+        if r2 == "unsat":
+            self.notes.append("cvc5 decided a query z3 left open")
+            return "unsat", None
         return "unknown", None
 
     def model_inputs(self, model):
@@ -218,6 +248,162 @@ class Path:
             else:
                 out[k] = str(val)
         return out
+
+
+# --------------------------------------------------------------------------------------------
+# interval reasoning over declared variable ranges (sound, incomplete, deterministic)
+
+_NEG, _POS = float("-inf"), float("inf")
+
+
+def interval(e, bounds, depth=0):
+    """(lo, hi) enclosing an Int term, from the declared ranges of its variables"""
+    if depth > 60:
+        return (_NEG, _POS)
+    if z3.is_int_value(e):
+        v = e.as_long()
+        return (v, v)
+    k = e.decl().kind()
+    ch = e.children()
+    if k == z3.Z3_OP_UNINTERPRETED and not ch:
+        lo, hi = bounds.get(e.decl().name(), (None, None))
+        return (_NEG if lo is None else lo, _POS if hi is None else hi)
+    if k == z3.Z3_OP_ADD:
+        lo = hi = 0
+        for c in ch:
+            a, b = interval(c, bounds, depth + 1)
+            lo, hi = lo + a, hi + b
+        return (lo, hi)
+    if k == z3.Z3_OP_SUB:
+        lo, hi = interval(ch[0], bounds, depth + 1)
+        for c in ch[1:]:
+            a, b = interval(c, bounds, depth + 1)
+            lo, hi = lo - b, hi - a
+        return (lo, hi)
+    if k == z3.Z3_OP_UMINUS:
+        a, b = interval(ch[0], bounds, depth + 1)
+        return (-b, -a)
+    if k == z3.Z3_OP_MUL:
+        lo, hi = 1, 1
+        for c in ch:
+            a, b = interval(c, bounds, depth + 1)
+            cands = []
+            for x in (lo, hi):
+                for y in (a, b):
+                    if (x in (_NEG, _POS) and y == 0) or (y in (_NEG, _POS) and x == 0):
+                        cands.append(0)
+                    else:
+                        cands.append(x * y)
+            lo, hi = min(cands), max(cands)
+        return (lo, hi)
+    if k in (z3.Z3_OP_IDIV, z3.Z3_OP_DIV) and z3.is_int_value(ch[1]) and ch[1].as_long() > 0:
+        d = ch[1].as_long()
+        a, b = interval(ch[0], bounds, depth + 1)
+        return (_NEG if a == _NEG else a // d, _POS if b == _POS else b // d)
+    if k == z3.Z3_OP_MOD and z3.is_int_value(ch[1]) and ch[1].as_long() > 0:
+        d = ch[1].as_long()
+        a, b = interval(ch[0], bounds, depth + 1)
+        if a != _NEG and b != _POS and a >= 0 and b < d:
+            return (a, b)
+        return (0, d - 1)
+    if k == z3.Z3_OP_ITE:
+        t = truth_by_intervals(ch[0], bounds, depth + 1)
+        if t is True:
+            return interval(ch[1], bounds, depth + 1)
+        if t is False:
+            return interval(ch[2], bounds, depth + 1)
+        a, b = interval(ch[1], bounds, depth + 1)
+        c, d = interval(ch[2], bounds, depth + 1)
+        return (min(a, c), max(b, d))
+    return (_NEG, _POS)
+
+
+def truth_by_intervals(c, bounds, depth=0):
+    """True / False if the Bool term is decided by variable ranges alone, else None"""
+    if depth > 60:
+        return None
+    if z3.is_true(c):
+        return True
+    if z3.is_false(c):
+        return False
+    k = c.decl().kind()
+    ch = c.children()
+    if k == z3.Z3_OP_NOT:
+        t = truth_by_intervals(ch[0], bounds, depth + 1)
+        return None if t is None else (not t)
+    if k == z3.Z3_OP_AND:
+        res = True
+        for x in ch:
+            t = truth_by_intervals(x, bounds, depth + 1)
+            if t is False:
+                return False
+            if t is None:
+                res = None
+        return res
+    if k == z3.Z3_OP_OR:
+        res = False
+        for x in ch:
+            t = truth_by_intervals(x, bounds, depth + 1)
+            if t is True:
+                return True
+            if t is None:
+                res = None
+        return res
+    if k in (z3.Z3_OP_LE, z3.Z3_OP_LT, z3.Z3_OP_GE, z3.Z3_OP_GT, z3.Z3_OP_EQ, z3.Z3_OP_DISTINCT) \
+            and len(ch) == 2 and z3.is_int(ch[0]):
+        a, b = interval(ch[0], bounds, depth + 1)
+        x, y = interval(ch[1], bounds, depth + 1)
+        if k == z3.Z3_OP_LE:
+            return True if b <= x else (False if a > y else None)
+        if k == z3.Z3_OP_LT:
+            return True if b < x else (False if a >= y else None)
+        if k == z3.Z3_OP_GE:
+            return True if a >= y else (False if b < x else None)
+        if k == z3.Z3_OP_GT:
+            return True if a > y else (False if b <= x else None)
+        if k == z3.Z3_OP_EQ:
+            if a == b == x == y:
+                return True
+            return False if (b < x or a > y) else None
+        if k == z3.Z3_OP_DISTINCT:
+            if a == b == x == y:
+                return False
+            return True if (b < x or a > y) else None
+    return None
+
+
+def second_opinion(solver, extra, timeout_s=None):
+    """ask the cvc5 binary about solver-assertions + extra; returns 'unsat' | 'sat' | 'unknown'.
+    Only an `unsat` answer is ever used (a second proof); sat/unknown leave the query open."""
+    import os
+    import subprocess
+    import tempfile
+
+    if os.environ.get("VERIF_NO_CVC5"):
+        return "unknown"
+    timeout_s = timeout_s or int(os.environ.get("VERIF_CVC5_TIMEOUT", "60"))
+    s2 = z3.Solver()
+    s2.add(solver.assertions())
+    s2.add(extra)
+    text = "(set-logic ALL)\n" + s2.to_smt2()
+    dump = os.environ.get("VERIF_DUMP_UNKNOWN")
+    fd, path = tempfile.mkstemp(suffix=".smt2", dir=dump or None)
+    try:
+        with os.fdopen(fd, "w") as f:
+            f.write(text)
+        try:
+            r = subprocess.run(["/usr/bin/cvc5", "--tlimit=%d" % (timeout_s * 1000), path],
+                               capture_output=True, text=True, timeout=timeout_s + 10)
+        except (subprocess.TimeoutExpired, FileNotFoundError):
+            return "unknown"
+        out = (r.stdout or "").strip().splitlines()
+        return out[0] if out and out[0] in ("sat", "unsat") else "unknown"
+    finally:
+        if not dump:
+            try:
+                os.unlink(path)
+            except OSError:
+                pass
 
 
 def explore(run, prefix_limit=20000, timeout_ms=20000, seed=0, on_path=None):
